@@ -55,6 +55,9 @@ def subspaces(tier):
     out += C.structure_subspaces(s3, 2, False, canonical=True, filter=["dominated_operations", "non_idle_machines"], second=True)
     for comp in (["dominated_operations", "non_idle_machines"], ["non_immediate_operations", "non_idle_machines"], ["non_immediate_machines"]):
         out += C.structure_subspaces(s3 + [(2, 2)], 2, False, canonical=True, filter=comp, shared=True)
+    out += C.wide_subspaces(filter="none")
+    out += C.wide_subspaces(filter=["dominated_operations", "non_idle_machines"])
+    out += C.wide_subspaces(filter="none", observed="atj", pairs=((1, 8),))
     for g in ("atj", "disj"):
         out += C.structure_subspaces(s3 + [(2, 2)], 2, False, canonical=(g == "disj"), filter="none", observed=g)
     out += C.structure_subspaces(s3, 2, False, canonical=True, filter=["dominated_operations", "non_idle_machines"], observed="atj")
